@@ -161,6 +161,18 @@ check("C14", "model_checking",
       "Trusted: the cutter of the text along generated chunks, the annotation parser, roll attribution by mark.detail steps, TLC. Expressions are sampled.",
       "TLC trace validation of recorded real executions against the TLA+ text/dice specification", "DESIGN.md section 4 C14")
 
+check("C16", "model_checking",
+      "spec/Gate.tla is the configuration machine: the VM's cfg, the parser's copy pcfg, macro lines writing the copy only, st values parsed with "
+      "saved/restored flags, End discarding the copy; each item of an input becomes dice / identifier / statement / operator / stop / error according "
+      "to the flags in force.  TLC checks FamilyGated, StmtsGated, NDiceGated, BitGated, CopyDiffers, MacroScoped and CfgStable on all bounded behaviours "
+      "and writes every behaviour (exhaustive: 128 flag sets x item sequences; simulated: histories of 3 inputs) as a replay plan; the harness runs each "
+      "input on the real VM and TLC (Trace_Gate) compares what every item became with the listing, and checks for every run - also the complete spellings "
+      "space over `abcfpdkqm120()+ ` x 128 flag sets, the repository corpus, generated and mutated programs in histories with macros - that no gated "
+      "instruction is emitted while its flag is off in the parser's copy (hook H4), that the copy is opened only by a macro of the same input, that "
+      "listing and executed instructions (hook H1, all depths) hold no disabled class, that identifier-shaped family spellings load as identifiers, and that Config is unchanged after the run.",
+      "Trusted: the classification of opcodes into gated classes, the textual recognition of macro lines, TLC. Spellings beyond the alphabet/length are sampled through the corpus/generator only.",
+      "TLA+ machine model-checked by TLC + replay of all bounded TLC behaviours on the real VM + TLC trace validation of recorded parses/runs", "DESIGN.md section 4 C16")
+
 NOT_YET = "check under construction in this build phase (planned in DESIGN.md section 4); not yet claimed"
 
 m = {
